@@ -4,6 +4,7 @@
 // through the back-off observer; Validate on a boundary-value grid. (b) cancellation at every wait /
 // attempt. (c) end to end: Streamable and legacy-SSE clients against a scripted HTTP server.
 // (d) every public way of configuring retries (options.go), end to end, for every request kind.
+// (e) every HTTP exchange of every client operation failed in turn, with hostile answers (phases.go).
 package main
 
 import (
@@ -35,8 +36,9 @@ func main() {
 	}
 	partOptions(r, refused)
 	partE2E(r, refused)
+	partPhases(r, refused)
 
-	for _, c := range []string{"options_calls_streamable", "options_calls_legacy-sse", "options_sequences_with_retry", "options_waits_compared", "options_real_gaps_bounded_below", "options_real_wait_calls",
+	for _, c := range []string{"phases_cases", "phases_cases_with_reattempt", "phases_cases_with_one_attempt", "options_calls_streamable", "options_calls_legacy-sse", "options_sequences_with_retry", "options_waits_compared", "options_real_gaps_bounded_below", "options_real_wait_calls",
 		"direct_scripts_enumerated", "direct_scripts_sampled", "direct_waits_compared", "direct_sequences_with_retry",
 		"cancellations_during_wait", "e2e_scripts_streamable", "e2e_scripts_legacy-sse", "e2e_sequences_with_retry", "validate_configs"} {
 		if r.Counter(c) == 0 {
@@ -49,7 +51,12 @@ func main() {
 		"every pruned script over the whole alphabet of real error values for MaxRetries <= 2 (quick) / 3 (thorough); seeded samples for MaxRetries up to 10; waits compared exactly with min(Initial*Factor^(k-1), Max) in rational arithmetic. "+
 		"cancellation: from inside every wait j and every attempt i of an all-transient script, and before the call. "+
 		"end to end: Streamable and legacy-SSE clients, every pruned script of length <= MaxRetries+2 over 23 wire outcomes for MaxRetries 1 (quick) / 1..2 (thorough), samples beyond, "+
-		"boundary MaxRetries values, no-retry clients, real (unshrunk) waits on a subset. A case is distinct by (part, validated configuration, number of leading transient outcomes, what ended the sequence) and non-trivial when attempts, waits and result all matched the model.",
+		"boundary MaxRetries values, no-retry clients, real (unshrunk) waits on a subset. "+
+		"phases: for both HTTP clients every HTTP exchange of every operation is failed in turn (legacy: stream-opening GET and endpoint wait inside the first request, request POST of initialize and of a later call, "+
+		"both notification POSTs, the POST answering a server request; Streamable: initialize POST, later POST, both notification POSTs, listening-stream GET, DELETE, answer POST) with each of 22 statuses "+
+		"x 15 bodies (empty, JSON-RPC error objects, texts mentioning connection refused / reset / i/o timeout / EOF / '502 ' / 'code 503' / 'status code: NNN') x 6 content types (quick: every status x body and status x content type pair, thorough: the product), "+
+		"complete 200 answers that are not a result, connection refused / reset / closed before the headers / closed mid-body, scripts of transient failures followed by success or a hostile 4xx, and the caller's context cancelled while the exchange is open; "+
+		"MaxRetries 2 (all), 1 (3, 11 thorough) and no retry option (samples); attempts counted at the client's HTTP boundary. A case is distinct by (part, validated configuration, number of leading transient outcomes, what ended the sequence) and non-trivial when attempts, waits and result all matched the model.",
 		[]string{
 			"the waits are observed at the hook between their computation and time.After; the hook's return value replaces the real wait",
 			"cancellation instants are the logical points 'before the call', 'inside attempt i' and 'when wait j has been computed'; an asynchronous cancel in the middle of a running timer is not driven (it reaches the same select)",
@@ -60,6 +67,10 @@ func main() {
 			"WithSimpleRetry(n) stands for {MaxRetries: n, 500ms, 2.0, 8s} (its documented defaults) before clamping",
 			"when several retry options are given the statement does not say which governs: a call is accepted when attempts, result and waits all follow ONE of them (the library was observed to follow the last)",
 			"a NaN factor has no nearest in-range value: any wait sequence Initial x F^(k-1) capped at Max with 1 <= F <= 10 is accepted",
+			"phases: one call of the client's HTTPReqHandler is one attempt of the library (net/http may replay a GET/DELETE on a dead keep-alive connection by itself; arrivals at the server are recorded, not judged)",
+			"phases: a complete HTTP answer is classified by its status alone (408, 409, 429, 5xx transient; every other 4xx and a 200 that is not a usable result not transient), whatever its body or Content-Type says",
+			"phases: exchanges the library sends outside the retry loop (notifications, answers to server requests, listening-stream GET, DELETE) are judged for the bound and for 'no further attempt after a non-transient failure' only; the asynchronous ones are counted after a fixed settling time, which can only hide extra attempts, never invent them",
+			"phases: answers truncated in the middle of the body and event streams that end early are observed and reported (set phases_open_classes_observed_attempts), only the bound is judged; so is an empty 200 body",
 		})
 }
 
